@@ -5,9 +5,9 @@
 set -u
 P=$1; shift
 CHECKS=${@:-$P}
-OUT=/tmp/seed-out-$P
-SUFFIX=${SEED_SUFFIX:-}
-DEST=/verif/seeded/$P$SUFFIX
+ROUND=${ROUND:-}
+OUT=/tmp/seed-out-$P$ROUND
+DEST=/verif/seeded/$P$ROUND
 WT=/tmp/wt-seedeval-$P-$$
 [ -f $OUT/patch.diff ] || { echo "no patch for $P"; exit 3; }
 git -C /repo worktree add --detach $WT HEAD -q || exit 3
